@@ -87,12 +87,43 @@ pub fn gen_case(t: &mut Tape) -> Case {
         }
     }
     let project = if t.chance(1, 3) {
-        vec![
-            ("Project.prql".to_string(), format!("from m1.tbl | join m2.tbl (==id) | derive {{r = m1.f1 a}} | select {{m1.tbl.id, r, b}}{}\n", if t.chance(1, 4) { " | filter m1.zzz > 1" } else { "" })),
-            ("m1.prql".to_string(), "let f1 = x -> x + 1\nlet tbl = (from t1 | select {id, a})\n".to_string()),
-            ("m2.prql".to_string(), "let tbl = (from t2 | select {id, b})\n".to_string()),
-            ("m3.prql".to_string(), "let unused = (from t3)\n".to_string()),
-        ]
+        let zzz = if t.chance(1, 4) { " | filter m1.zzz > 1" } else { "" };
+        match t.choose(5) {
+            // independent modules
+            0 => vec![
+                ("Project.prql".to_string(), format!("from m1.tbl | join m2.tbl (==id) | derive {{r = m1.f1 a}} | select {{m1.tbl.id, r, b}}{zzz}\n")),
+                ("m1.prql".to_string(), "let f1 = x -> x + 1\nlet tbl = (from t1 | select {id, a})\n".to_string()),
+                ("m2.prql".to_string(), "let tbl = (from t2 | select {id, b})\n".to_string()),
+                ("m3.prql".to_string(), "let unused = (from t3)\n".to_string()),
+            ],
+            // a module that refers to a module sorted before it (m2 -> m1, m3 -> m2)
+            1 => vec![
+                ("Project.prql".to_string(), format!("from m3.top | derive {{r = m1.f1 a}} | select {{id, r, b}}{zzz}\n")),
+                ("m1.prql".to_string(), "let f1 = x -> x + 1\nlet tbl = (from t1 | select {id, a})\n".to_string()),
+                ("m2.prql".to_string(), "let both = (from m1.tbl | join r = (from t2 | select {id, b}) (==id) | select {m1.tbl.id, a, b})\n".to_string()),
+                ("m3.prql".to_string(), "let top = (from m2.both | sort {id} | take 5)\n".to_string()),
+            ],
+            // a module that refers to a module sorted after it (must fail the same way in every order)
+            2 => vec![
+                ("Project.prql".to_string(), "from m1.both | select {id, a, b}\n".to_string()),
+                ("m1.prql".to_string(), "let both = (from m2.tbl | join r = (from t1 | select {id, a}) (==id) | select {m2.tbl.id, a, b})\n".to_string()),
+                ("m2.prql".to_string(), "let tbl = (from t2 | select {id, b})\n".to_string()),
+            ],
+            // syntax errors in two (or three) files: the list of errors has one order
+            3 => vec![
+                ("Project.prql".to_string(), "from m1.tbl | join m2.tbl (==id)\n".to_string()),
+                ("m1.prql".to_string(), "let tbl = (from t1 | select {id, a = })\n".to_string()),
+                ("m2.prql".to_string(), "let tbl = (from t2 | select {id, b)\n".to_string()),
+                ("a0.prql".to_string(), "let f = x -> x +\n".to_string()),
+            ],
+            // file names whose order differs between byte order and a case-insensitive one; nested module
+            _ => vec![
+                ("Project.prql".to_string(), format!("from b.tbl | join Zed.tbl (==id) | join a_b.tbl (==id) | select {{b.tbl.id, a, b, c = Zed.tbl.k}}{}\n", if zzz.is_empty() { "" } else { " | filter b.zzz > 1" })),
+                ("b.prql".to_string(), "let tbl = (from t1 | select {id, a})\n".to_string()),
+                ("a_b.prql".to_string(), "let tbl = (from b.tbl | join r = (from t2 | select {id, b}) (==id) | select {tbl.id, b})\n".to_string()),
+                ("Zed.prql".to_string(), "let tbl = (from t3 | select {id, k})\n".to_string()),
+            ],
+        }
     } else {
         vec![]
     };
